@@ -194,6 +194,8 @@ fn cases_for_value(seed: u64, i: u64, thorough: bool) -> Vec<Case> {
     } else {
         base
     };
+    // and larger matrix parts on the two plain matrix-carrying dynamic types (65 x 65, 97 x 97; small integers as entries)
+    let base = if matches!(name, "Dual2DVec64" | "HyperDualDVec64") && r.chance(120) { Case { max_dim: [65, 65, 97][r.below(3)], simple: true, ..base } } else { base };
     let mut cases = vec![base.clone()];
     let with = |s: SinkSpec| Case { sink: s, ..base.clone() };
     // learn the shape of the fault-free history (number of sink calls) to place faults inside the operation
